@@ -300,13 +300,22 @@ def _with_deriv(x, Pm):
     return x
 
 
+def _wide_am(x):
+    base = (np.arange(int(np.prod(x.shape))).reshape(x.shape) % 3 != 1)
+    return np.stack([base, np.logical_not(base)])
+
+
 def wide_alphabet(name, Pm):
     A = np.array
     q = [('q', 'antimask', lambda x: x.antimask), ('q', 'corners', lambda x: x.corners),
          ('q', 'wod', lambda x: x.wod), ('q', 'mask', lambda x: x.mask),
          ('q', 'shrink', lambda x: x.shrink(x.antimask) if x.shape else x),
          ('q', 'count', lambda x: int(np.sum(np.broadcast_to(x.mask, x.shape)))),
-         ('q', 'str', lambda x: str(x))]
+         ('q', 'str', lambda x: str(x)),
+         # an antimask with one more axis than the object (shrink broadcasts the object first) and the way back:
+         # the cached un-shrunk original must be the broadcast object (seeded change C18-H)
+         ('q', 'shrink_wide_rt', lambda x: x.shrink(_wide_am(x)).unshrink(_wide_am(x)).copy() if x.shape else x),
+         ('q', 'shrink_wide', lambda x: x.shrink(_wide_am(x)).copy() if x.shape else x)]
     if name == 'poly_alias':
         q += [('q', 'partner_antimask', lambda x: x.__dict__['_c18_partner'].antimask),
               ('q', 'partner_corners', lambda x: x.__dict__['_c18_partner'].corners),
@@ -347,7 +356,12 @@ def wide_alphabet(name, Pm):
               ('m', 'del_deriv', lambda x: x.delete_deriv('t')),
               ('m', 'del_derivs', lambda x: x.delete_derivs()),
               ('m', 'set_units', lambda x: x.set_units(Pm.Units.KM)),
-              ('m', 'iadd_self', lambda x: x.__iadd__(x.copy()))]
+              ('m', 'iadd_self', lambda x: x.__iadd__(x.copy())),
+              # NumPy scalars as operands: a shapeless target then holds a NumPy scalar, not a Python number
+              # (seeded change C18-G: the cached wod was kept for "array" values, and np.int64 is not a Python int)
+              ('m', 'iadd_npint', inplace('__iadd__', np.int64(1))), ('m', 'isub_npint', inplace('__isub__', np.int32(1))),
+              ('m', 'iadd_npf32', inplace('__iadd__', np.float32(1.))), ('m', 'imod_npint', inplace('__imod__', np.int64(5))),
+              ('m', 'iadd_int', inplace('__iadd__', 1)), ('m', 'isub_int', inplace('__isub__', 1))]
         # object operands whose mask adds a masked element (seeded change C03-A: __isub__ kept the cached antimask)
         def partly_masked(x):
             m = np.zeros(x.shape, bool)
